@@ -130,3 +130,15 @@ Check (C02_encoder_file_valid : forall o L si others blocks bytes,
   16 <= si_min_bs si -> si_min_bs si <= si_max_bs si ->
   (si_total si = 0 \/ blocks_samples blocks = si_total si) ->
   spec_stream (file_of si others bytes) = Ok (si, blocks)).
+Check (C14_encoder_interrupted_file : forall o L si others blocks bytes b gb m,
+  enc_blocks o L (si_rate si) (si_bps si) 0 blocks = Some bytes ->
+  enc_frame_bytes o L (si_rate si) (si_bps si) (N.of_nat (length blocks)) b = Some gb ->
+  si_ok si -> blocks_ok others ->
+  Forall (fun x => block_ok si (si_bps si) x /\ 14 < block_len x) (blocks ++ [b]) ->
+  N.of_nat (length blocks) + 1 <= MAX_FRAME_NUMBER + 1 ->
+  (m < length gb)%nat ->
+  (si_total si = 0 \/ blocks_samples blocks + block_len b <= si_total si) ->
+  match dec_stream (file_of si others (bytes ++ firstn m gb)) with
+  | Some (si', out, e) => si' = si /\ out = map interleave_frame blocks /\ is_end_panic e = false
+  | None => False
+  end).
